@@ -132,6 +132,19 @@ pub fn run(a: &Args) {
         let v = gen::gen_val(&mut r, &t, 8);
         check_value(&mut o, &mut r, &t, &v);
     }
+    // lengths at the 3 -> 4 byte varint boundary: round trip only (too large for the model's case file)
+    for l in [2097151usize, 2097152, 2097153] {
+        for (t, v) in [(Ty::Str, Val::Str(vec![b'a'; l])), (Ty::Bytes, Val::Bytes(vec![0x5a; l])), (Ty::Seq(Box::new(Ty::Unit)), Val::Seq(vec![Val::Unit; l]))] {
+            let what = format!("{} of length {}", t, l);
+            o.eval(&("big", &what), true);
+            let got = guarded(|| postcard::to_allocvec(&v).and_then(|b| decode_with(1, &t, &b).map(|(back, rest)| (back == v, rest.map(|r| r.len())))));
+            match got {
+                Ok(Ok((true, Some(0)))) => {}
+                other => o.fail("take_from_bytes returns the encoded value", what, format!("{:?}", other), "the value, nothing left".into()),
+            }
+            o.bump("boundary_2^21");
+        }
+    }
     for (t, v) in gen::boundary_cases() {
         check_value(&mut o, &mut r, &t, &v);
         o.bump("boundary_length_or_variant_index");
